@@ -68,7 +68,7 @@ pub fn jobs(ctx: &Ctx) -> Vec<Job> {
         let class = rng.below(3);
         let level = rng.below(4);
         let vmax = 1 + rng.below(3);
-        jobs.push(Job { fam: FAMS[4], class, mode: if rng.chance(1, 2) { Some(class) } else { None }, level: Some(level), version: None, mask: None, len: rng.below(caps.cap(vmax, level, class) + 1), gen: rng.below(GEN_COUNT), seed: mix(ctx.seed, k), ..Default::default() });
+        jobs.push(Job { fam: FAMS[4], class, mode: if rng.chance(1, 2) { Some(class) } else { None }, level: if rng.chance(1, 4) { None } else { Some(level) }, version: None, mask: None, len: rng.below(caps.cap(vmax, level, class) + 1), gen: rng.below(GEN_COUNT), seed: mix(ctx.seed, k), ..Default::default() });
     }
     for w in WITNESSES {
         k += 1;
